@@ -26,6 +26,10 @@ type Backing struct {
 	Heap bool   // elements live in the elems heap under Ref
 	Ref  Term   // Heap: backing array id
 	Loc  *VAddr // !Heap: an array stored at an address (local cell or struct field)
+	// Imm: set when the slice was read from a field of an `immutable` type: the backing array it
+	// had at that point (element writes to that array are writes to configuration), and the type
+	Imm     Term
+	ImmType string
 }
 
 type VSlice struct {
@@ -328,7 +332,7 @@ func rebuild(v Value, ts *[]Term) Value {
 		o := take()
 		l := take()
 		c := take()
-		return VSlice{Backing{Heap: true, Ref: r}, o, l, c}
+		return VSlice{Backing{Heap: true, Ref: r, Imm: v.Back.Imm, ImmType: v.Back.ImmType}, o, l, c}
 	case VStruct:
 		n := VStruct{}
 		for _, f := range v.F {
